@@ -1,17 +1,25 @@
 #!/usr/bin/env python3
-"""C06 detection demo taghide_needs_show: FilterTagsByName removes a label only if it is both not shown and hidden (|| became &&).
+"""C06 detection demo unsym_no_binary_match: Location.matchesName consults the binary name only for locations that have line information, so focus/ignore/hide by binary miss unsymbolized frames.
 
 Exact-text substitution on the current /repo/profile/filter.go; nothing under /repo is
 touched. Prints the path of a `go build -overlay` json:
-    ov=$(python3 /verif/demos/C06_taghide_needs_show.py)
+    ov=$(python3 /verif/demos/C06_unsym_no_binary_match.py)
     cd /repo && go test -overlay $ov -vet=off -count=1 ./...     # existing suite
     cd /verif && ./pmc check C06 --solo --extra $ov              # must report a VIOLATION
 """
 import json, os
 SRC = '/repo/profile/filter.go'
-OUT = '/tmp/c06-demo/taghide_needs_show'
+OUT = '/tmp/c06-demo/unsym_no_binary_match'
 SUBS = [
-    ("return !matchShow || matchHide", "return !matchShow && matchHide"),
+    ("""	if m := loc.Mapping; m != nil && re.MatchString(m.File) {
+		return true
+	}
+	return false
+}""", """	if m := loc.Mapping; m != nil && len(loc.Line) > 0 && re.MatchString(m.File) {
+		return true
+	}
+	return false
+}"""),
 ]
 s = open(SRC).read()
 for old, new in SUBS:
